@@ -5,10 +5,12 @@ CHECK = {
     # generated from the current working tree, /repo is not touched) by a wrapper that reports recursive read
     # locking and read->write upgrades, which are deadlocks as soon as a writer queues in between
     "rewrite": [
-        {"file": "hostmap.go", "subs": [["\tsync.RWMutex", "\tverifRWMutex"]], "append": "\nvar _ sync.Mutex // keeps the import used\n"},
-        {"file": "handshake_manager.go", "subs": [["\tsync.RWMutex", "\tverifRWMutex"]], "append": "\nvar _ sync.Mutex // keeps the import used\n"},
-        {"file": "lighthouse.go", "subs": [["\tsync.RWMutex", "\tverifRWMutex"]], "append": "\nvar _ sync.Mutex // keeps the import used\n"},
-        {"file": "remote_list.go", "subs": [["\tsync.RWMutex", "\tverifRWMutex"]], "append": "\nvar _ sync.Mutex // keeps the import used\n"},
+        {"file": "hostmap.go", "subs": [["type HostMap struct {\n\tsync.RWMutex", "type HostMap struct {\n\tverifRWMutexOf[HostMap]"],
+                                        ["type RelayState struct {\n\tsync.RWMutex", "type RelayState struct {\n\tverifRWMutexOf[RelayState]"]],
+         "append": "\nvar _ sync.Mutex // keeps the import used\n"},
+        {"file": "handshake_manager.go", "subs": [["\tsync.RWMutex", "\tverifRWMutexOf[HandshakeManager]"]], "append": "\nvar _ sync.Mutex // keeps the import used\n"},
+        {"file": "lighthouse.go", "subs": [["\tsync.RWMutex", "\tverifRWMutexOf[LightHouse]"]], "append": "\nvar _ sync.Mutex // keeps the import used\n"},
+        {"file": "remote_list.go", "subs": [["\tsync.RWMutex", "\tverifRWMutexOf[RemoteList]"]], "append": "\nvar _ sync.Mutex // keeps the import used\n"},
     ],
     "run": "^TestC34",
     # upstream's in-memory tun (overlay/tun_tester.go, test build only) sends on a channel its Close has
@@ -18,8 +20,8 @@ CHECK = {
     "quick": {"scale": 1, "shards": 1, "timeout": 900},
     "thorough": {"scale": 4, "shards": 8, "timeout": 2400},
     "engine": "E-race",
-    "technique": "rapid-generated concurrent workloads on real nodes under the Go race detector (real parallelism, outside synctest), with a classified deadlock watchdog and a lock-discipline invariant (no recursive read locking, no read-to-write upgrade) checked on every lock operation of the shared tables",
-    "rule": "Each case builds 4-5 real nodes (lighthouse, relay, 2-3 hosts, some direct host paths blocked so relays carry traffic) in a -race binary and runs 2-6 worker goroutines, each executing 5-40 generated operations concurrently: tun packets and bursts in all directions, re-handshakes, CloseTunnel/CloseAllTunnels, reloads of firewall/conntrack, lighthouse and punchy settings, control-API reads (hostmap listings, host info, lighthouse cache, certificates), underlay rebind, SetRemoteForTunnel, with generated yields; then all nodes are stopped concurrently. In a quarter of the cases every worker pauses once for about two seconds so that the periodic work (connection-manager traffic checks, primary swaps, relay migration, lighthouse updates) runs against live and duplicate tunnels; `crossRehandshake` makes both ends handshake with each other at the same moment. The embedded RWMutexes of HostMap, RelayState, HandshakeManager, LightHouse and RemoteList are replaced at build time (overlay copy of the current source) by a bookkeeping wrapper. A race report, a classified lock cycle, or a goroutine re-acquiring a read lock it holds / upgrading it (a deadlock as soon as a writer queues in between) is a violation; an unclassified hang is inconclusive. Non-trivial: >=2 workers and some node receiving >=3 distinct operation kinds; distinct by workload.",
+    "technique": "rapid-generated concurrent workloads on real nodes under the Go race detector (real parallelism, outside synctest), with a classified deadlock watchdog and a lock-discipline invariant (no recursive read locking, no read-to-write upgrade, one acquisition order between lock classes) checked on every lock operation of the shared tables",
+    "rule": "Each case builds 4-5 real nodes (lighthouse, relay, 2-3 hosts, some direct host paths blocked so relays carry traffic) in a -race binary and runs 2-6 worker goroutines, each executing 5-40 generated operations concurrently: tun packets and bursts in all directions, re-handshakes, CloseTunnel/CloseAllTunnels, reloads of firewall/conntrack, lighthouse and punchy settings, control-API reads (hostmap listings, host info, lighthouse cache, certificates), underlay rebind, SetRemoteForTunnel, with generated yields; then all nodes are stopped concurrently. In a quarter of the cases every worker pauses once for about two seconds so that the periodic work (connection-manager traffic checks, primary swaps, relay migration, lighthouse updates) runs against live and duplicate tunnels; `crossRehandshake` makes both ends handshake with each other at the same moment. The embedded RWMutexes of HostMap, RelayState, HandshakeManager, LightHouse and RemoteList are replaced at build time (overlay copy of the current source) by a bookkeeping wrapper. A race report, a classified lock cycle, a goroutine re-acquiring a read lock it holds / upgrading it, or two code paths taking two of these lock classes in opposite orders (deadlocks as soon as a writer queues in between) is a violation; an unclassified hang is inconclusive. Non-trivial: >=2 workers and some node receiving >=3 distinct operation kinds; distinct by workload.",
     "assumptions": ["the race detector only sees interleavings that actually occur; a silent run is evidence, not absence",
                     "deadlock detection is a 60 s watchdog with goroutine-dump classification (>=2 nebula goroutines blocked in Mutex/RWMutex Lock with none runnable)"],
 }
